@@ -59,7 +59,8 @@ def model_line(c):
 
 def impl_init():
     from pyp0f.exceptions import PacketError
-    from pyp0f.net.layers.http import read_payload
+    from pyp0f.net.layers.http import HTTP, read_payload
+    from pyp0f.net.signatures import HTTPPacketSignature
     from pyp0f.net.packet import Direction
 
     def impl(c):
@@ -78,8 +79,24 @@ def impl_init():
             if bytes(buf) != raw:
                 return {"exc": "the caller's buffer was consumed or altered"}
         except PacketError:
+            for cls in (HTTP, HTTPPacketSignature):
+                try:
+                    cls.from_buffer(raw)
+                    return {"exc": "%s.from_buffer accepts a payload read_payload rejects" % cls.__name__}
+                except PacketError:
+                    pass
             return {"err": "PacketError"}
-        return {"ok": ["request" if d == Direction.CLIENT_TO_SERVER else "response", v, [[bytes(h.name).hex(), bytes(h.value).hex()] for h in hs]]}
+        res = {"ok": ["request" if d == Direction.CLIENT_TO_SERVER else "response", v, [[bytes(h.name).hex(), bytes(h.value).hex()] for h in hs]]}
+        # the layer / signature classes are further entry points to the same parse: they must agree with read_payload
+        for cls in (HTTP, HTTPPacketSignature):
+            try:
+                x = cls.from_buffer(raw)
+                got = [x.version, [[bytes(h.name).hex(), bytes(h.value).hex()] for h in x.headers]]
+            except PacketError:
+                got = "PacketError"
+            if got != res["ok"][1:]:
+                return {"exc": "%s.from_buffer disagrees with read_payload: %s" % (cls.__name__, str(got)[:120])}
+        return res
     return impl
 
 
